@@ -548,14 +548,20 @@ def check_op(ctx, B, stream, opname, line, pres, oracle, rp, want_names=True):
         elif pres[1] not in ("RecursionError", "timeout"):
             mismatch(ctx, stream + ":" + opname, "implementation raised %s on %s where the reference succeeds" % (pres[1], sexp.dumps(line)[:400]))
     p = ("ok", wstr(pres[1])) if pres[0] == "ok" else ("err",)
+    pa = sexp.dumps(kwire.canon_term(wire(pres[1]))) if pres[0] == "ok" else None
 
     def cb(ans, ln):
         m = model_term(ans)
         if m[0] == "err" and m[1] == "fuel" or pres[0] == "err" and pres[1] in ("RecursionError", "timeout"):
             ctx.count(opname + ":divergence-or-depth")
             return
-        if (m[0], m[1] if m[0] == "ok" else None) != (p[0], p[1] if p[0] == "ok" else None):
+        # the property speaks of terms up to `==`: the model's answer and the implementation's
+        # have to be alpha-equivalent; the suggested bound names are reported as information only
+        ma = sexp.dumps(kwire.canon_term(ans[1])) if m[0] == "ok" else None
+        if (m[0], ma) != (p[0], pa):
             mismatch(ctx, stream + ":" + opname, "%s: python=%s model=%s" % (ln[:500], (pres[0], p[1][:300] if p[0] == "ok" else pres[1]), sexp.dumps(ans)[:300]))
+        elif m[0] == "ok" and m[1] != p[1]:
+            ctx.count("info:bound-names-differ-from-model:" + opname)
     B.ask(line, cb)
 
 
@@ -612,19 +618,24 @@ def eq_hash_case(ctx, B, t, u, tag):
     B.ask(["aeq", wire(t), wire(u)], cb)
 
     def cbh(ans, ln):
-        # the model's hash trees are equal iff the Python hashes are (collisions aside)
+        # information only (how __hash__ builds its value is not part of the property): does
+        # "model trees equal" coincide with "Python hashes equal"?
         same = pycall(lambda: hash(t) == hash(u))
-        if same != ("ok", ans == "T"):
-            mismatch(ctx, "a:hasheq", "%s: hash(t)==hash(u) is %s, model trees equal: %s" % (ln[:500], same, ans))
+        ctx.count("info:hash-nest-%s" % ("agrees-with-model" if same == ("ok", ans == "T") else "differs-from-model"))
     B.ask(["hasheq", wire(t), wire(u)], cbh)
 
 
 def hash_case(ctx, B, t):
+    """information only: is hash(t) the hash of the tuple nest of the model?  (A __hash__ that is
+    built differently but still gives equal terms equal hashes satisfies the property.)"""
     h = pycall(lambda: hash(t))
 
     def cb(ans, ln):
-        if ans == "bad-op" or h[0] != "ok" or pyhash(ans) != h[1]:
-            mismatch(ctx, "a:hashtree", "%s: hash(t)=%s, hash of the model's tuple nest=%s" % (ln[:400], h, None if ans == "bad-op" else pyhash(ans)))
+        try:
+            same = ans != "bad-op" and h[0] == "ok" and pyhash(ans) == h[1]
+        except Exception:  # noqa
+            same = False
+        ctx.count("info:hash-value-%s" % ("is-the-model-nest" if same else "is-not-the-model-nest"))
     B.ask(["hashtree", wire(t)], cb)
 
 
@@ -1507,6 +1518,11 @@ def stream_order(ctx):
         if any(x[0] != "ok" for x in (ab, ba, bc, ac)):
             report(ctx, "order-type-total", "fast_compare_typ raised: %s %s %s %s" % (ab, ba, bc, ac), rp)
             continue
+        eqab = pycall(lambda: a == b)
+        if eqab != ("ok", tkey(a) == tkey(b)):
+            report(ctx, "eq-type", "Type.__eq__ answered %s, structures %s" % (eqab, "identical" if tkey(a) == tkey(b) else "different"), rp)
+        elif eqab == ("ok", True) and pycall(lambda: hash(a) == hash(b)) != ("ok", True):
+            report(ctx, "hash-type", "equal types with different hashes", rp)
         if sgn(ab[1]) != -sgn(ba[1]):
             report(ctx, "order-type-antisym", "fast_compare_typ(a,b)=%s, (b,a)=%s" % (ab[1], ba[1]), rp)
         if (ab[1] == 0) != (tkey(a) == tkey(b)) or (ab[1] == 0) != (a == b):
@@ -1659,13 +1675,14 @@ def replay(ctx, rp):
                if (a == b) != (skey(a) == skey(b)) or (skey(a) == skey(b) and hash(a) != hash(b))]
         print("inconsistent pairs:", bad)
         return bool(bad)
-    if kind.startswith("order-type") or kind.startswith("type-lt"):
+    if kind.startswith("order-type") or kind.startswith("type-lt") or kind in ("eq-type", "hash-type"):
         from kernel import term_ord
         a, b, c = ty_of_js(r["a"]), ty_of_js(r["b"]), ty_of_js(r["c"])
         f = term_ord.fast_compare_typ
         ab, ba, bc, ac = f(a, b), f(b, a), f(b, c), f(a, c)
         print("cmp:", ab, ba, bc, ac, " a==b:", a == b, " a<b, b<a:", a < b, b < a)
         return (sgn(ab) != -sgn(ba) or (ab == 0) != (tkey(a) == tkey(b)) or (ab <= 0 and bc <= 0 and ac > 0)
+                or (a == b) != (tkey(a) == tkey(b)) or (a == b and hash(a) != hash(b))
                 or [a < b, b < a, a == b].count(True) != 1 or (a <= b) != (a < b or a == b) or (a < b and b < c and not a < c))
     if kind.startswith("order-"):
         from kernel import term_ord
